@@ -114,12 +114,20 @@ def chain(acc, name, order, ident, read_code, start, cfg):
 
 def explore_identity(acc, name, items):
     ident = dict((i, v.encode()) for i, v in items)
-    for order in ('asc', 'desc', 'reconf'):
+    for order in ('asc', 'desc', 'reconf', 'update'):
         reset.control_block()
         if order == 'asc':
             reset.set_identity(items)
         elif order == 'desc':
             reset.set_identity(list(reversed(items)))
+        elif order == 'update':
+            # configured the way servers do it, through update(): an earlier, larger configuration, objects
+            # withdrawn again by blanking them, then the values of this identity
+            from pymodbus.device import ModbusControlBlock
+            idn = ModbusControlBlock().Identity
+            idn.update(dict([(i, 'old') for i, _ in items] + [(0x90, 'gone'), (5, 'gone-too')]))
+            idn.update(dict([(0x90, ''), (5, '')]))
+            idn.update(dict(items))
         else:   # a previous configuration left other values behind; then re-configured
             reset.set_identity([(i, 'old') for i, _ in reversed(items)] + [(0x90, 'gone')])
             reset.set_identity(items + [(0x90, '')])
